@@ -867,7 +867,7 @@ def _raw_generate(rng, tier):
         m = rng.randint(2, 6)
         yield {'op': 'spav', 'votes': _appr_profile(rng, m, small=rng.random() < 0.5), 'n': rng.randint(1, m), '_tags': []}
     for op, k in (('score_agg', 700), ('score', 700), ('mj', 1000), ('star', 800), ('allocated', 800)):
-        for _ in range(k if q else k * 25):
+        for _ in range(k if q else k * 15):
             c = _score_case(rng, op)
             c['_tags'] = []
             yield c
@@ -886,35 +886,37 @@ def _raw_generate(rng, tier):
                'unscored': rng.choice([None, None, '0']), 'min_count': 0, 'truncation': '0', 'bottom': '0', '_tags': ['mj_directed']}
     if not q:
         # small-scope exhaustive: every approval profile over 3 candidates with at most 2 distinct ballots, weights 1..2
-        subsets = [list(s) for r in (1, 2, 3) for s in itertools.combinations(range(3), r)]
-        for k in (1, 2):
-            for bs in itertools.combinations(subsets, k):
-                for ws in itertools.product([1, 2], repeat=k):
-                    votes = [[b, str(w)] for b, w in zip(bs, ws)]
-                    for n in (1, 2, 3):
-                        yield {'op': 'pav', 'votes': votes, 'n': n, '_tags': ['exhaustive']}
-                        yield {'op': 'spav', 'votes': votes, 'n': n, '_tags': ['exhaustive']}
-        # every score profile over 2 candidates with at most 2 distinct full/partial ballots, grades {0,1,2}, counts 1..2
-        ballots = []
-        for g0 in (None, 0, 1, 2):
-            for g1 in (None, 0, 1, 2):
-                b = [[c, str(g)] for c, g in ((0, g0), (1, g1)) if g is not None]
+        for m, kmax in ((3, 3), (4, 2)):
+            subsets = [list(s) for r in range(1, m + 1) for s in itertools.combinations(range(m), r)]
+            for k in range(1, kmax + 1):
+                for bs in itertools.combinations(subsets, k):
+                    for ws in itertools.product([1, 2], repeat=k):
+                        votes = [[b, str(w)] for b, w in zip(bs, ws)]
+                        for n in range(1, m + 1):
+                            yield {'op': 'pav', 'votes': votes, 'n': n, '_tags': ['exhaustive']}
+                            yield {'op': 'spav', 'votes': votes, 'n': n, '_tags': ['exhaustive']}
+        # every score profile over 2 (3) candidates with at most 2 distinct full/partial ballots, grades {0,1,2}, counts 1..2
+        for m, weights in ((2, [(1,), (2,), (1, 1), (1, 2), (2, 1), (2, 2)]), (3, [(1,), (1, 1), (2, 1)])):
+            ballots = []
+            for gs in itertools.product((None, 0, 1, 2), repeat=m):
+                b = [[c, str(g)] for c, g in enumerate(gs) if g is not None]
                 if b:
                     ballots.append(b)
-        for k in (1, 2):
-            for bs in itertools.combinations(ballots, k):
-                for ws in itertools.product([1, 2], repeat=k):
-                    votes = [[b, w] for b, w in zip(bs, ws)]
-                    for n in (1, 2):
-                        base = {'votes': votes, 'n': n, 'unscored': None, 'min_count': 0, 'truncation': '0', 'bottom': '0',
-                                '_tags': ['exhaustive']}
-                        for fn in FUNCTIONS:
-                            yield dict(base, op='score', function=fn, _tags=['exhaustive'])
-                        for tb in ('default', 'plus'):
-                            yield dict(base, op='mj', tie_breaking=tb, _tags=['exhaustive'])
-                        yield dict(base, op='star', added_count=1, added_fraction='0', _tags=['exhaustive'])
-                        c = {'op': 'allocated', 'votes': votes, 'n': n, 'quota': 'hare', '_tags': ['exhaustive']}
-                        yield c
+            for k in (1, 2):
+                for bs in itertools.combinations(ballots, k):
+                    for ws in weights:
+                        if len(ws) != k:
+                            continue
+                        votes = [[b, w] for b, w in zip(bs, ws)]
+                        for n in range(1, m + 1):
+                            base = {'votes': votes, 'n': n, 'unscored': None, 'min_count': 0, 'truncation': '0', 'bottom': '0'}
+                            for fn in FUNCTIONS:
+                                yield dict(base, op='score', function=fn, _tags=['exhaustive'])
+                            for tb in ('default', 'plus'):
+                                yield dict(base, op='mj', tie_breaking=tb, _tags=['exhaustive'])
+                            yield dict(base, op='star', added_count=1, added_fraction='0', _tags=['exhaustive'])
+                            yield {'op': 'allocated', 'votes': votes, 'n': n, 'quota': 'hare', '_tags': ['exhaustive']}
+                            yield {'op': 'allocated', 'votes': votes, 'n': n, 'quota': 'droop', '_tags': ['exhaustive']}
 
 
 def _tag(case):
@@ -1081,7 +1083,8 @@ RULE = ('approval profiles over 2..6 candidates (1..6 distinct ballots, weights 
         'counts 1..4; all 1 <= n <= candidates; function in {mean,sum,median_low}, unscored in {None,0,min}, min_count in '
         '{0,2,3,5}, truncation in {0,1,2,1/4,1/3,1/10}, bottom in {0,1,-1}; MJ default/plus; STAR added_count 0..2, '
         'added_fraction {0,1/2,1}; allocated droop/hare; PAV call sequences (n, m, n, ...) on one instance; thorough adds all '
-        'approval profiles over 3 candidates with <= 2 ballot kinds and all 2-candidate score profiles with grades 0..2. '
+        'approval profiles over 3 candidates with <= 3 ballot kinds / 4 candidates with <= 2 (weights 1..2), all 2-candidate score '
+        'profiles with <= 2 ballot kinds, grades 0..2, counts 1..2, and all 3-candidate ones with counts (1),(1,1),(2,1). '
         'Non-trivial = at least two candidates and a non-error outcome; distinct by canonical request.')
 TECHNIQUE = ('Lean 4: code-shaped models of approval.py / cardinal.py / convert.py proved equal to the defining computations '
              '(arg-max over all n-subsets, round-wise arg-max, weighted mean / sum / counting median), justified representation by '
